@@ -66,3 +66,38 @@ package types
 //@     && (vestingTypes.VestingTypes[i].LockupPeriod % 1000000000 == 0 ==> unitNs(gVestingTypes[i].LockupPeriodUnit) * gVestingTypes[i].LockupPeriod == vestingTypes.VestingTypes[i].LockupPeriod)
 //@     && (vestingTypes.VestingTypes[i].VestingPeriod % 1000000000 == 0 ==> unitNs(gVestingTypes[i].VestingPeriodUnit) * gVestingTypes[i].VestingPeriod == vestingTypes.VestingTypes[i].VestingPeriod)
 
+
+//@ // ---- C17 / C20: the pool part of the genesis summary ----
+//@ // the store lists the owners in key order: a function of the set of keys present (KV iteration order, not modelled further)
+//@ spec func ownerCount(found [str]bool) int
+//@ spec func ownerOrder(found [str]bool, i int) str
+//@ // currently locked amount of those of one owner's first n pools that are genesis pools
+//@ spec func sumGenRow(gen [int]bool, il [int]int, w [int]int, s [int]int, n int) int =
+//@   n <= 0 ? 0 : sumGenRow(gen, il, w, s, n - 1) + (gen[n - 1] ? il[n - 1] - w[n - 1] - s[n - 1] : 0)
+//@ // ... summed over the first n owners of the store
+//@ spec func sumGenStore(found [str]bool, ln [str]int, gen [str][int]bool, il [str][int]int, w [str][int]int, s [str][int]int, n int) int =
+//@   n <= 0 ? 0 : sumGenStore(found, ln, gen, il, w, s, n - 1)
+//@     + sumGenRow(gen[ownerOrder(found, n - 1)], il[ownerOrder(found, n - 1)], w[ownerOrder(found, n - 1)], s[ownerOrder(found, n - 1)], ln[ownerOrder(found, n - 1)])
+//@ pred sumGenStoreOf(n) = sumGenStore($pFound, $pLen, $pGenesis, $pIL, $pW, $pS, n)
+//@ pred sumGenRowOf(o, n) = sumGenRow($pGenesis[o], $pIL[o], $pW[o], $pS[o], n)
+//@ // the list is what the store holds, in store order
+//@ pred listIsStore(l) = len(l) == ownerCount($pFound) && (forall i: int :: {l[i].Owner} 0 <= i && i < len(l) ==> l[i].Owner == ownerOrder($pFound, i)
+//@     && len(l[i].VestingPools) == $pLen[l[i].Owner]
+//@     && (forall m: int :: {l[i].VestingPools[m]} 0 <= m && m < len(l[i].VestingPools) ==> l[i].VestingPools[m] != nil && poolEq(l[i].VestingPools[m], l[i].Owner, m)))
+//@ // magnitudes of the stored amounts and counts (far below the 2^256 limit of math.Int): assumed by the no-panic check
+//@ pred storeAmountsSane() = ownerCount($pFound) <= 1000000 && (forall o: str :: {$pLen[o]} $pLen[o] <= 1000000)
+//@   && (forall o: str, i: int :: {$pIL[o][i]} {$pW[o][i]} {$pS[o][i]} abs($pIL[o][i]) <= 1e60 && abs($pW[o][i]) <= 1e60 && abs($pS[o][i]) <= 1e60)
+//@ func (avpl AccountVestingPoolsList) GetGenesisAmount() (r)
+//@   requires listIsStore(avpl)
+//@   panic_requires storeAmountsSane()
+//@   ensures !r.IsNil()
+//@   ensures [sum] r == sumGenStoreOf(len(avpl))
+//@   ensures [bound] storeAmountsSane() ==> abs(r) <= len(avpl) * 3e66
+//@   prop C17 C20
+//@ loop AccountVestingPoolsList.GetGenesisAmount#1
+//@   invariant 0 <= \i && \i <= len(avpl) && !result.IsNil() && result == sumGenStoreOf(\i)
+//@   invariant storeAmountsSane() ==> abs(result) <= \i * 3e66
+//@ loop AccountVestingPoolsList.GetGenesisAmount#2
+//@   invariant 0 <= \i && \i <= len(avp.VestingPools) && !result.IsNil()
+//@   invariant result == sumGenStoreOf(\o) + sumGenRowOf(avp.Owner, \i)
+//@   invariant storeAmountsSane() ==> abs(result) <= \o * 3e66 + \i * 3e60
